@@ -447,6 +447,13 @@ def main_():
             elif c['kind'] == 'strpad4':
                 out.append({'vals': [int(nad.NetAddr._strpad4(n)) for n in c['n']],
                             'enc': [len(oli.write_string('a' * n)) if n <= 300 else None for n in c['n']]})
+            elif c.get('ctx') == 'routine':
+                # the sending context: called from inside a routine (main.current_tt is the routine, not the main
+                # thread) -- the NRT interface then counts latencies from the routine's logical time
+                from sc3.base import stream as stm
+                box = []
+                stm.Routine(lambda: box.append(run_build(c))).next()
+                out.append(box[0] if box else {'crash': 'the routine did not run the case'})
             else:
                 out.append(run_build(c))
         except BaseException as e:     # never let one case kill the run
